@@ -22,6 +22,7 @@ import (
 	"path/filepath"
 	"runtime"
 	"sort"
+	"strings"
 	"sync"
 
 	"verifharness/lib"
@@ -304,9 +305,27 @@ func (m *xfModelLines) compare(c *lib.Ctx, prefix string) {
 		return m.impl[idx[a]] < m.impl[idx[b]]
 	})
 	var l, im []string
+	nbig, budget := 0, xfBigBudget(c)
 	for _, i := range idx {
+		if xfBigLine(m.lines[i]) && !strings.HasPrefix(m.lines[i], "xfer.plan") {
+			nbig++
+		}
+	}
+	seen, next, step := 0, 0.0, float64(nbig)/float64(budget)
+	for _, i := range idx {
+		if xfBigLine(m.lines[i]) && !strings.HasPrefix(m.lines[i], "xfer.plan") && nbig > budget {
+			take := float64(seen) >= next
+			seen++
+			if !take {
+				continue
+			}
+			next += step
+		}
 		l = append(l, m.lines[i])
 		im = append(im, m.impl[i])
+	}
+	if nbig > budget {
+		c.R.Note("%s: %d of %d xfer.readat lines with mp=32768 evaluated by the model (evenly spaced selection)", prefix, budget, nbig)
 	}
 	if len(l) > 0 {
 		c.Compare(prefix, l, im)
